@@ -373,6 +373,8 @@ class C07Models:
     def ref_attr(self, ex, obj, o, attr, lineno):
         if isinstance(o, MatObj):
             return self.value_attr(ex, obj, attr, lineno)
+        if attr == "jac" and isinstance(o, DictObj) and _on(ex) and getattr(ex.contract, "disciplines_are_jac_dicts", False):
+            return obj  # a discipline is represented by its `jac` dict (the only thing the assembly reads of it)
         return NotImplemented
 
     def value_attr(self, ex, obj, attr, lineno):
